@@ -72,7 +72,7 @@ C11Q = {"unwind_is_violation": 1, "disksz": 10000, "dirslots": 3, "namecmp": 2, 
 C11T = {"unwind_is_violation": 1, "disksz": 10000, "dirslots": 4, "namecmp": 2, "bbytes": 4, "bblocks": 3, "inums": 5, "offsets": 2, "longnames": 1, "zeroalloc": 0}
 # per-procedure bounds: objects that can be freed inline are small (sizeblocks) in the directory procedures
 C11X = {n: {"sizeblocks": 1, "inums": 1, "namelens": 2, "pendingshrink": 0} for n in ["Create", "Mkdir", "Symlink", "Remove", "Rmdir", "Rename"]}
-C11X["Setattr"] = {"inums": 1, "plainattrs": 1, "timeattrs": 0, "bblocks": 1}
+C11X["Setattr"] = {"inums": 1, "plainattrs": 1, "timeattrs": 0, "bblocks": 1, "offsets": 0}
 C11X["Write"] = {"inums": 1, "offsets": 0, "bbytes": 1, "bblocks": 1}
 C11XT = {n: {"sizeblocks": 3, "inums": 2} for n in ["Create", "Mkdir", "Symlink", "Remove", "Rmdir", "Rename"]}
 PROPS["C11"] = {
@@ -160,14 +160,15 @@ PROPS["C08"] = {
 }
 
 
-def _steps(flag, procs=(1, 2, 3, 4), extra_q=None, extra_t=None):
+def _steps(flag, procs=(1, 2, 3, 4), extra_q=None, extra_t=None, covers_by=None):
     hs = []
     for k in procs:
         q = dict(STEPQ, inums=1, offsets=0, procs=k, **{flag: 1})
         t = dict(STEPT, procs=k, **{flag: 1})
         q.update(extra_q or {})
         t.update(extra_t or {})
-        hs.append(H("nfs.VerifStep", covers=("ok", "err"), q=q, t=t, lmax=3, budget_s=400, budget_s_t=3000, tag="procs%d" % k))
+        cv = ("ok", "err") + tuple((covers_by or {}).get(k, ()))
+        hs.append(H("nfs.VerifStep", covers=cv, q=q, t=t, lmax=3, budget_s=400, budget_s_t=3000, tag="procs%d" % k))
     return hs
 
 
@@ -189,12 +190,12 @@ PROPS["C06"]["harnesses"] += _steps("p06", (1, 2, 3, 4))
 
 PROPS["C03"] = {
     "level": "other",
-    "monitor_harnesses": ["VerifStep"],
+    "monitor_harnesses": ["VerifStep", "VerifC03Revalidate"],
     "technique": "bounded symbolic execution of each RPC with lock/journal/access monitors; decides the sufficient condition (strict two-phase locking, replies built under the lock), not linearizability over schedules",
     "explanation": "sufficient condition only: every symbolic path of every RPC obeys strict two-phase locking (no lock acquired after a release within a transaction; every access to a cached inode, including the ones that build the reply, happens under that inode's lock). Schedules are not explored; the classical theorem strict 2PL + commit order => serializable is assumed.",
     "assumptions": JOURNAL + ["lockmap, allocator mutex and journal are linearizable themselves (dependency)", "theorem: strict two-phase locking implies serializability in commit order"],
     "outside": ["real goroutine interleavings", "the background shrinker racing with requests"],
-    "harnesses": _steps("p03", (1, 2, 3, 4)),
+    "harnesses": [H("nfs.VerifC03Revalidate", covers=("accepted", "refused"), q=dict(STEPQ, inums=2, namelens=2, namecmp=1), t=dict(STEPT, inums=2), lmax=3, budget_s=300, budget_s_t=1500)] + _steps("p03", (1, 2, 3, 4)),
 }
 
 
@@ -241,8 +242,8 @@ PROPS["C01"] = {
     "modfile": True,
     "harnesses": _steps("p01", (1, 2, 3, 4)) + [
         H("nfs.VerifC01Recovery", q={"realwal": 1, "disksz": 10000}, t={"realwal": 1, "disksz": 10000}, budget_s=300),
-        {"fn": "github.com/mit-pdos/go-journal/wal.VerifWalAppend", "covers": ["end", "durable"], "q": {"live": 2, "group": 2, "disksz": 2000}, "t": {"live": 3, "group": 3, "disksz": 2000}, "budget_s": 600, "budget_s_t": 3000, "timeout_ms": 120000},
-        {"fn": "github.com/mit-pdos/go-journal/wal.VerifWalInstall", "covers": ["end", "nonempty"], "q": {"live": 2, "disksz": 2000}, "t": {"live": 3, "disksz": 2000}, "budget_s": 600, "budget_s_t": 3000, "timeout_ms": 120000},
+        {"fn": "github.com/mit-pdos/go-journal/wal.VerifWalAppend", "covers": ["end", "durable"], "q": {"live": 2, "group": 2, "disksz": 2000, "noslice": 1}, "t": {"live": 3, "group": 3, "disksz": 2000, "noslice": 1}, "budget_s": 600, "budget_s_t": 3000, "timeout_ms": 120000},
+        {"fn": "github.com/mit-pdos/go-journal/wal.VerifWalInstall", "covers": ["end", "nonempty"], "q": {"live": 2, "disksz": 2000, "noslice": 1}, "t": {"live": 3, "disksz": 2000, "noslice": 1}, "budget_s": 600, "budget_s_t": 3000, "timeout_ms": 120000},
     ],
 }
 
@@ -257,10 +258,17 @@ PROPS["C14"] = {
 }
 
 
+PROPS["C04"] = {
+    "level": "model_checking",
+    "explanation": "inductive step for the structural invariant: every mutating RPC executed symbolically from an arbitrary state satisfying Inv; on the logical disk after the request the same clauses are asserted for every inode the request can have touched (inode shape, pointer ownership and range, block and inode bitmaps, directory block shape, unique names, live children), and names and objects have moved together (created object named once, removed name gone and its object freed, renamed object named at the target only, '..' right)",
+    "assumptions": JOURNAL + ["pre-state satisfies Inv (DESIGN.md §4) including bitmap agreement and link counts", "representative inode/block numbers (bound R_addr)", "crash states are states between transactions (C01)"],
+    "outside": ["entries of indirect blocks (ownership/marking of blocks reached through index blocks)", "directories of more than K_slots entries", "global tree shape (cycles created by renaming a directory into its own subtree)", "states between the transactions of the background shrinker"],
+    "harnesses": _steps("p04", (1, 2, 3), covers_by={2: ("w5-create", "w5-remove"), 3: ("w5-rename",)}) + [H("nfs.VerifC04Shrink", covers=("end",), q=dict(STEPQ, inums=1, bblocks=2, p04=1, sizeblocks=0), t=dict(STEPT, bblocks=4, p04=1, sizeblocks=0), lmax=3, budget_s=300, budget_s_t=1500)],
+}
+
 NOT_APPLICABLE = {
     "C02": "reference-model equivalence needs the relational mutator x observer matrix over two symbolic worlds; designed but not built within reach of this engine's cost (DESIGN.md A.1); parts are decided under C07, C08, C09, C12, C13, C17, C19 and not claimed here",
-    "C04": "the post-state invariant step (I1-I8 asserted on the logical disk after every transaction at solver witnesses) is not built; the invariant is only assumed on pre-states (DESIGN.md A.1); fragments are decided under C08, C10, C12, C15, C19",
-    "C05": "needs C04's post-state witnesses and a multi-transaction DoShrink progress harness; not built (DESIGN.md A.1); the return of allocations by failed requests is decided under C09",
+    "C05": "the on-disk step obligations (dropped block unmarked, block marked by the request pointed to, inode bitmap = live inodes, object that lost its only name freed, DoShrink completes) are decided under C04 and the return of allocations by failed requests under C09; the agreement of the in-memory allocators with the disk bitmaps (the allocator is a contract stub in the step harnesses) and blocks reached through index blocks are not decided, so the property as stated is not claimed (DESIGN.md A.1)",
 }
 
 
@@ -275,6 +283,8 @@ def items(prop, tier, seed):
     for h in PROPS[prop]["harnesses"]:
         if only and not re.search(only, h["fn"]):
             continue
+        if os.environ.get("VERIF_TAG") and not re.search(os.environ["VERIF_TAG"], h.get("tag", "")):
+            continue
         params = h["q"] if tier == "quick" else (h["t"] if h["t"] is not None else None)
         if params is None:
             continue
@@ -285,6 +295,8 @@ def items(prop, tier, seed):
             kk = k + ("_t" if tier == "thorough" and (k + "_t") in h else "")
             if kk in h:
                 it[k] = h[kk]
+        if os.environ.get("VERIF_BUDGET"):
+            it["budget_s"] = int(os.environ["VERIF_BUDGET"])
         it["params"]["seed"] = seed
         out.append(it)
     return out
